@@ -1,7 +1,7 @@
 (* C15 property theorems over the tables regenerated from the repository (Gen_Fields.v, Gen_MapRanges.v). *)
 From Coq Require Import ZArith List Bool String.
 From Coq Require Import Lia.
-From OG Require Import C15.Model C15.Proofs C15.Tables C15.Gen_Fields C15.Gen_MapRanges C15.Gen_Transient C15.Gen_Commands.
+From OG Require Import C15.Model C15.Proofs C15.Tables C15.Gen_Fields C15.Gen_MapRanges C15.Gen_Transient C15.Gen_Commands C15.Gen_Values.
 From OG Require Import C16.Model C16.ProofsRun C16.Order C15.Cmds C15.CmdsProofs.
 Import ListNotations.
 Open Scope string_scope.
@@ -68,6 +68,12 @@ Theorem C15_command_kinds_classified :
   forallb (fun k => negb (mem k unmodelled_kinds)) modelled_kinds = true.
 Proof. vm_compute. repeat split. Qed.
 Print Assumptions C15_command_kinds_classified.
+
+(* value-level coverage of the snapshot encoding: every leaf of a populated catalogue set to every boundary value of its
+   type either comes back from Clone -> MarshalBinary -> UnmarshalBinary, or the loss is an explained gap (Tables.value_gaps) *)
+Theorem C15_value_gaps_classified : forallb (fun m => existsb (gap_matches m) value_gaps) value_mismatches = true.
+Proof. vm_compute. reflexivity. Qed.
+Print Assumptions C15_value_gaps_classified.
 
 Open Scope Z_scope.
 
